@@ -1,0 +1,40 @@
+//----------------------------------*-C++-*----------------------------------//
+// Copyright 2024 UT-Battelle, LLC, and other Celeritas developers.
+// See the top-level COPYRIGHT file for details.
+// SPDX-License-Identifier: (Apache-2.0 OR MIT)
+//---------------------------------------------------------------------------//
+//! \file corecel/sys/VerifHook.hh
+//! \brief Scheduling points for deterministic-simulation verification builds
+//---------------------------------------------------------------------------//
+#pragma once
+
+/*!
+ * \def CELER_VERIF_YIELD
+ *
+ * Mark a point at which an external deterministic scheduler may pre-empt the
+ * calling host thread. Compiled out (no code, no data) unless the library is
+ * built with \c -DCELERITAS_VERIF_SIM . With the guard on, the macro calls a
+ * process-global function pointer that is null (no-op) by default, so
+ * behaviour is unchanged unless a verification harness installs a callback.
+ */
+#ifdef CELERITAS_VERIF_SIM
+namespace celeritas
+{
+namespace verif
+{
+using YieldHook = void (*)(char const* site);
+//! Installed by the verification harness; null means "do nothing"
+inline YieldHook g_yield_hook = nullptr;
+}  // namespace verif
+}  // namespace celeritas
+#    define CELER_VERIF_YIELD(SITE)                                        \
+        do                                                                 \
+        {                                                                  \
+            if (auto celer_verif_hook_ = ::celeritas::verif::g_yield_hook) \
+            {                                                              \
+                celer_verif_hook_(SITE);                                   \
+            }                                                              \
+        } while (0)
+#else
+#    define CELER_VERIF_YIELD(SITE) ((void)0)
+#endif
